@@ -484,7 +484,8 @@ class Gen:
         for r in refs:
             leaves.append((e_bin("&", e_id(r), e_lit(3)), 0, 3))
         for c, v in self.consts.items():
-            leaves.append((e_id(c), v, v))
+            if c not in refs:            # a field of the same name shadows the constant (it is then one of the refs)
+                leaves.append((e_id(c), v, v))
         leaves.append((e_lit(rnd.randrange(0, 4)), None, None))
         leaves.append((e_sizeof("uint16", 2), 2, 2))
 
@@ -584,6 +585,10 @@ class Gen:
             w = cfg["w"]
             if r < w[0]:
                 t = self.scalar()
+                if t["k"] == "int" and t["name"] == "uint8" and self.consts and not anon and rnd.random() < 0.25:
+                    shadow = rnd.choice(list(self.consts))       # a field named like a constant: the field wins in later expressions
+                    if shadow not in [f["name"] for f in fields]:
+                        fname = shadow
                 fields.append(field(fname, t))
                 cur[0] = None
                 if t["k"] == "int" and t["name"] == "uint8":
